@@ -6,7 +6,9 @@
 (*  [k |-> "rec", same, fields, eq, ne, heq]  eq <=> same type and fields; *)
 (*                                            ne = ~eq; eq => equal hashes *)
 (*  [k |-> "alias", set, got]                 aliases read back            *)
-(*  [k |-> "flag", members, v, names]         the printed name parses back *)
+(*  [k |-> "flag", members, own, v, names]    the printed name parses back *)
+(*     (members: every name as attribute lookup on the enum resolves it -  *)
+(*      a subclass's value wins over its base's; own: declared in the enum) *)
 (***************************************************************************)
 EXTENDS Integers, Sequences, FiniteSets, Bitwise, TLC, Json, IOUtils
 Obs == JsonDeserialize(IOEnv.TRACE_FILE)
@@ -35,7 +37,7 @@ RECURSIVE Reach(_, _)
 Reach(ms, acc) == LET nxt == acc \cup {a | ms[j][2] : a \in acc, j \in 1..Len(ms)} IN IF nxt = acc THEN acc ELSE Reach(ms, nxt)
 FlagLaw(o) ==
   IF o.names = <<"None">>
-  THEN o.v \notin Reach(o.members, {0})                 \* no name only when the value is not a union of members
+  THEN o.v \notin Reach(o.own, {0})                     \* no name only when the value is not a union of the enum's own members
   ELSE /\ \A j \in 1..Len(o.names) : IsMember(o.members, o.names[j])
        /\ OrAll(o.members, o.names, 1) = o.v
 
